@@ -54,7 +54,9 @@ impl<I: ConnectSyscall> ConnectSyscall for NioConnectSyscall<I> {
                 break;
             }
             let errno = Error::last_os_error().raw_os_error();
-            if errno == Some(libc::EINPROGRESS) || errno == Some(libc::EALREADY) || errno == Some(libc::EWOULDBLOCK) {
+            // an interrupted connect goes on asynchronously, exactly like EINPROGRESS
+            // (connect is not called again in this loop, so EINTR must not just retry)
+            if errno == Some(libc::EINPROGRESS) || errno == Some(libc::EALREADY) || errno == Some(libc::EWOULDBLOCK) || errno == Some(libc::EINTR) {
                 //阻塞，直到写事件发生
                 left_time = start_time
                     .saturating_add(send_time_limit(fd))
@@ -95,7 +97,7 @@ impl<I: ConnectSyscall> ConnectSyscall for NioConnectSyscall<I> {
                     set_errno(libc::EINPROGRESS);
                     r = -1;
                 }
-            } else if errno != Some(libc::EINTR) {
+            } else {
                 break;
             }
         }
